@@ -186,8 +186,10 @@ def gen_stmts(d, lists, scal, p_fold=12):
             out.append(["foreach", n, "i", None, [["expr", ["bin", d.choice(["<=", ">=", "!="]), el(n, ["iv", "i"]), ["iv", "i"]]]]])
         elif r < 50:
             op = d.choice([">", ">=", "!=", "<"])
-            out.append(["foreach", n, "i", None, [["if", [[["bin", ">", ["iv", "i"], L(0)],
-                                                          [["expr", ["bin", op, el(n, ["iv", "i"]), el(n, ["bin", "-", ["iv", "i"], L(1)])]]]]], None]]])
+            nb = [["expr", ["bin", op, el(n, ["iv", "i"]), el(n, ["bin", "-", ["iv", "i"], L(1)])]]]
+            guard = ["bin", ">", ["iv", "i"], L(0)]
+            # (the index guard is an if_then or, just as naturally, an implies)
+            out.append(["foreach", n, "i", None, [["if", [[guard, nb]], None] if d.chance(60) else ["implies", guard, nb]]])
         elif r < 54:
             out.append(["foreach", n, "i", "it", [["expr", ["bin", d.choice([">=", "!="]), ["it", "it"], ["iv", "i"]]]]])
         elif r < 58:
